@@ -340,6 +340,12 @@ def int_binop(fr, op, l, r, node):
             r_ = AInt(list(keep))
             r_.signed = True
             return r_
+        elif isinstance(op, ast.BitAnd) and A.ext is None and A.bits and (
+                (rc is not None and rc >= 0 and getattr(A, "signed", False)) or (lc is not None and lc >= 0 and getattr(B, "signed", False))):
+            # two's complement & non-negative constant mask: sign-extend the signed side, the result is an unsigned value
+            S, m = (A, rc) if rc is not None and rc >= 0 and getattr(A, "signed", False) else (B, lc)
+            sx = lambda j: S.bits[j] if j < len(S.bits) else S.bits[-1]
+            return AInt([sx(j) if (m >> j) & 1 else ZERO for j in range(max(m.bit_length(), 1))])
         else:
             raise Abort(f"arithmetic on a signed abstract integer ({type(op).__name__}) at {fr.fi.module.relpath}:{getattr(node, 'lineno', 0)}")
     if isinstance(op, ast.LShift) and rc is not None:
